@@ -293,12 +293,15 @@ Section Hash.
       from_dict idtoken_params (t_claims t) [] = Ok d /\
       check_required idtoken_params d = Ok tt /\
       idtoken_checks kw d now = Ok tt /\
-      hash_checks lhash signed ch d (t_alg t) code atok = Ok tt.
+      hash_checks lhash signed ch d (t_alg t) code atok = Ok tt /\
+      decrypt_stage kw t = Ok tt /\ enc_expectation kw t = Ok tt.
   Proof.
     unfold verify_id_token. intro H.
+    apply bind_ok in H as ([] & Hdec & H).
     apply bind_ok in H as ([] & _ & H).
     apply bind_ok in H as (signed & Hp & H).
     apply bind_ok in H as ([] & Hk & H).
+    apply bind_ok in H as ([] & Henc & H).
     apply bind_ok in H as ([] & Hs & H).
     apply bind_ok in H as (d' & Hf & H).
     apply bind_ok in H as ([] & Hr & H).
@@ -308,8 +311,62 @@ Section Hash.
     apply bind_ok in H as ([] & _ & H).
     inversion H; subst d'. exists signed.
     split; [exact Hp|]. split; [intros ->; split; assumption|].
-    split; [exact Hf|]. split; [exact Hr|]. split; [exact Hc|exact Hh].
+    split; [exact Hf|]. split; [exact Hr|]. split; [exact Hc|]. split; [exact Hh|]. split; assumption.
   Qed.
+
+  (* ---- encrypted delivery ---- *)
+  Lemma decrypt_stage_inv kw t w :
+    decrypt_stage kw t = Ok tt -> t_wrap t = Some w -> exists k, w_key w = Some k /\ In k (kw_dec kw).
+  Proof.
+    unfold decrypt_stage. intros H Hw. rewrite Hw in H.
+    destruct (negb _); try discriminate. destruct (kw_dec kw) as [|k0 ks] eqn:Ek; try discriminate.
+    destruct (w_key w) as [k|]; try discriminate.
+    destruct (existsb (Nat.eqb k) (k0 :: ks)) eqn:Ex; try discriminate.
+    apply existsb_exists in Ex as (k' & Hin & Heq). apply Nat.eqb_eq in Heq. subst k'. eauto.
+  Qed.
+
+  Lemma header_expect_inv e a : header_expect e (Some a) = Ok tt -> forall x, e = Some x -> x <> [] -> a = x.
+  Proof.
+    unfold header_expect. intros H x -> Hne. destruct x as [|c r]; [congruence|].
+    destruct (str_eqb (c :: r) a) eqn:E; try discriminate. apply str_eqb_eq in E. congruence.
+  Qed.
+
+  Lemma enc_expectation_inv kw t w :
+    enc_expectation kw t = Ok tt -> t_wrap t = Some w ->
+    (forall a, kw_encalg kw = Some a -> a <> [] -> w_alg w = a) /\
+    (forall e, kw_encenc kw = Some e -> e <> [] -> w_enc w = e).
+  Proof.
+    unfold enc_expectation. intros H Hw. rewrite Hw in H. apply bind_ok in H as ([] & H1 & H2).
+    split; intros x Hx Hne; eapply header_expect_inv; eauto.
+  Qed.
+
+  (* decryption is the identity on the symbolic level: an encrypted delivery establishes exactly what the
+     delivery of the inner JWS to a client without encryption expectations establishes *)
+  Theorem encrypted_as_plain kw ch code atok t now d :
+    verify_id_token lhash kw ch code atok t now = Ok d ->
+    verify_id_token lhash (kw_plain kw) ch code atok (unwrap t) now = Ok d.
+  Proof.
+    unfold verify_id_token. intro H.
+    apply bind_ok in H as ([] & _ & H).
+    apply bind_ok in H as ([] & Hg & H).
+    apply bind_ok in H as (signed & Hp & H).
+    apply bind_ok in H as ([] & Hk & H).
+    apply bind_ok in H as ([] & _ & H).
+    change (decrypt_stage (kw_plain kw) (unwrap t)) with (@Ok unit tt).
+    change (t_alg (unwrap t)) with (t_alg t). change (t_claims (unwrap t)) with (t_claims t).
+    change (alg_policy (kw_plain kw) (t_alg t)) with (alg_policy kw (t_alg t)).
+    change (issuer_known (kw_plain kw) (unwrap t)) with (issuer_known kw t).
+    change (enc_expectation (kw_plain kw) (unwrap t)) with (@Ok unit tt).
+    change (sig_accepted (kw_plain kw) (unwrap t)) with (sig_accepted kw t).
+    change (idtoken_checks (kw_plain kw)) with (idtoken_checks kw).
+    cbn [bind]. rewrite Hg. cbn [bind]. rewrite Hp. cbn [bind]. rewrite Hk. cbn [bind]. exact H.
+  Qed.
+
+  (* ... hence a JWE around a token that is refused when delivered plain is refused *)
+  Corollary refused_plain_refused_encrypted kw ch code atok t now :
+    (forall d, verify_id_token lhash (kw_plain kw) ch code atok (unwrap t) now <> Ok d) ->
+    forall d, verify_id_token lhash kw ch code atok t now <> Ok d.
+  Proof. intros Hno d H. apply (Hno d). apply encrypted_as_plain; exact H. Qed.
 End Hash.
 
 (* ---- facts read off the generated schema table (they break when /repo changes the schema) ---- *)
@@ -394,13 +451,18 @@ Section SoundFull.
     (* 7 c_hash / at_hash of a signed token delivered by the authorization endpoint *)
     (ch = true -> t_alg t <> PS "none" ->
        (forall x, code = Some x -> assoc (PS "c_hash") d = Some (VStr (lhash (hash_bits (t_alg t)) x))) /\
-       (forall x, atok = Some x -> assoc (PS "at_hash") d = Some (VStr (lhash (hash_bits (t_alg t)) x)))).
+       (forall x, atok = Some x -> assoc (PS "at_hash") d = Some (VStr (lhash (hash_bits (t_alg t)) x)))) /\
+    (* 8 delivered as a JWE: encrypted to one of this client's decryption keys, with the expected alg / enc *)
+    (forall w, t_wrap t = Some w ->
+       (exists k, w_key w = Some k /\ In k (kw_dec kw)) /\
+       (forall a, kw_encalg kw = Some a -> a <> [] -> w_alg w = a) /\
+       (forall e, kw_encenc kw = Some e -> e <> [] -> w_enc w = e)).
   Proof.
     intros H Hnd Hi Hc.
-    pose proof (verify_id_token_stages lhash _ _ _ _ _ _ _ H) as (signed & Hp & Hsig & Hf & Hr & Hck & Hh).
+    pose proof (verify_id_token_stages lhash _ _ _ _ _ _ _ H) as (signed & Hp & Hsig & Hf & Hr & Hck & Hh & Hdec & Henc).
     pose proof (alg_policy_inv _ _ _ Hp) as [Hp0 Hp1].
     pose proof (idtoken_checks_inv _ _ _ Hck) as (C1 & C2 & C3 & C4 & C5 & C6).
-    split; [|split; [exact Hf|split; [|split; [|split; [exact (fun azp Ha => C4 azp c Ha Hc)|split; [|split; [exact C6|]]]]]]].
+    split; [|split; [exact Hf|split; [|split; [|split; [exact (fun azp Ha => C4 azp c Ha Hc)|split; [|split; [exact C6|split]]]]]]].
     - destruct signed.
       + right. destruct (Hp1 eq_refl) as [Hne Hallowed]. split; [exact Hne|].
         split; [eapply accepted_key_of_issuer; eauto|].
@@ -417,6 +479,7 @@ Section SoundFull.
     - intros -> Hne. destruct signed.
       + apply hash_checks_inv in Hh. exact Hh.
       + destruct (Hp0 eq_refl) as [E _]. contradiction.
+    - intros w Hw. split; [eapply decrypt_stage_inv; eauto|eapply enc_expectation_inv; eauto].
   Qed.
 
   (* unforgeability: if no key in the jar is ever published, the signature of an accepted signed token is a
